@@ -136,7 +136,8 @@ def run(repo, rep):
     rep.analysed['settings'] = settings
     if len(settings) < SETTINGS_MIN:
         raise AnalysisError('python_to_sdocs takes %s: fewer settings than the property names' % settings)
-    dc = m.assigns.get('_default_config')
+    DC = __import__('engine.roles', fromlist=['x']).name(repo, 'default_config')
+    dc = m.assigns.get(DC)
     if not dc or not isinstance(dc[0], ast.Dict):
         raise AnalysisError('_default_config is no longer a dict literal')
     default_keys = [k.value for k in dc[0].keys if isinstance(k, ast.Constant)]
@@ -160,7 +161,7 @@ def run(repo, rep):
             yield 'all-but-' + s_, set(settings) - {s_}
 
     def default_table(rec):
-        t = rec.it.global_name(m, '_default_config')
+        t = rec.it.global_name(m, DC)
         return t if isinstance(t, DictV) else None
 
     def check_pipeline(rec, ename, label, gv, where, table, rule='C18.a'):
@@ -396,13 +397,13 @@ def run(repo, rep):
                     base = t
                     while isinstance(base, (ast.Subscript, ast.Attribute)):
                         base = base.value
-                    if isinstance(base, ast.Name) and base.id == '_default_config' and (isinstance(t, ast.Subscript) or
-                                                                                        any(isinstance(g_, ast.Global) and '_default_config' in g_.names for g_ in ast.walk(f.node))):
+                    if isinstance(base, ast.Name) and base.id == DC and (isinstance(t, ast.Subscript) or
+                                                                                        any(isinstance(g_, ast.Global) and DC in g_.names for g_ in ast.walk(f.node))):
                         hit = True
-            if isinstance(s_, ast.Call) and dotted(s_.func) and dotted(s_.func).startswith('_default_config.') \
+            if isinstance(s_, ast.Call) and dotted(s_.func) and dotted(s_.func).startswith(DC + '.') \
                     and s_.func.attr in ('update', 'pop', 'clear', 'setdefault', 'popitem', '__setitem__'):
                 hit = True
-            if isinstance(s_, ast.Delete) and any('_default_config' in src(t) for t in s_.targets):
+            if isinstance(s_, ast.Delete) and any(DC in src(t) for t in s_.targets):
                 hit = True
             if hit:
                 n += 1
